@@ -23,6 +23,15 @@ def fuzz(workers, runs, **kw):
 NOT_CLAIMED = {}
 
 PROPS = {
+    "C08": dict(
+        level="exploration",
+        technique="simulation-based property testing: bursts of CON/NON submissions against scripted ACK/RST peers with faults on a virtual network; in-flight counter, FIFO and exactly-once oracle computed from the wire trace; TCP sessions with withheld CSM for the not-yet-established clause",
+        level_text="Generated bursts, NSTART values, reply scripts (per received copy) and faults; the oracle replays the wire trace and never looks at libcoap's counters.",
+        level_note="Trusted base: sim/sim.cc, ref/refcodec.h. The peer only answers copies it received, as the statement requires. DTLS hold-queue behaviour is decided in C19.",
+        quick=rc(8, 5000),
+        thorough=rc(14, 120000),
+        **SIM,
+    ),
     "C07": dict(
         level="exploration",
         technique="simulation-based property testing: libcoap client (and libcoap server with async responses) on a virtual network with generated loss/duplication/delay; per-token outcome counting oracle over the wire and callback trace",
